@@ -780,7 +780,8 @@ pub fn run(o: &Opts) {
     let pool = pool();
     let mut rng = Rng::new(o.seed ^ (o.shard << 32) ^ 0xC05);
 
-    // (0) fixed witnesses, always first
+    // (0) fixed inputs, always first: the byte strings of the repaired defects (b5 CONNACK/UNSUBACK
+    //     unreachable!(), v5 InsufficientBytes on a complete frame, c5 bodiless DISCONNECT) and borders
     if o.shard == 0 {
         for (cp, hexs) in [
             (Cp::B5, "20020000"),
@@ -1036,11 +1037,7 @@ pub fn run(o: &Opts) {
             let mut s = vec![];
             let mut big = 0;
             for _ in 0..nfr {
-                let mut f = *rng.pick(&small);
-                // every other stream without CONNACK / UNSUBACK so that b5 gets past its panic
-                while i % 2 == 0 && matches!(f[0] >> 4, 2 | 11) {
-                    f = *rng.pick(&small);
-                }
+                let f = *rng.pick(&small);
                 big = big.max(header_of(f).1);
                 s.extend_from_slice(f);
             }
